@@ -868,3 +868,11 @@ pub fn closing_delimiter<'a>(token: &Token) -> Option<Token<'a>> {
     _ => None,
   }
 }
+
+/// Kani harnesses for this module live out of tree; the directory is named
+/// by `ANWEISS_CDDL_VERIF_DIR` when the crate is built by `cargo kani`.
+#[cfg(kani)]
+mod verif_kani {
+  use super::*;
+  include!(concat!(env!("ANWEISS_CDDL_VERIF_DIR"), "/kani/token.rs"));
+}
